@@ -42,7 +42,7 @@ PROPS["C03"] = dict(
     level="proof",
     verus=["c02_dispatch", "c03_parse_mask", "c03_apply_options", "c03_option_text", "c03_check_options", "c05_optimizer", "c06_matches", "c04_precedence", "c12_request", "c12_classify", "c01_get_tokens"],
     labels=["C03.", "C05.select.", "C04.check.unsupported", "C12.new.third_party", "C12.new.classify", "C12.preparsed.", "C12.classify.", "C01.get_tokens."] + MASK,
-    witness=["c12_requests.rs"],
+    witness=["c12_requests.rs", "c03_model.rs"],
     kani=[KaniSet("src/filters/network_matchers.rs", "c03_options.rs", [
         Harness("c03_options_nodomain", "C03.options.nodomain", "C", "full domain: 2^32 masks x 17 request types x scheme x party; loop-free"),
         Harness("c03_type_bit", "C03.type_bit", "C", "all 17 request types"),
@@ -101,7 +101,7 @@ PROPS["C07"] = dict(
     verus=["c01_lookup", "c04_partition", "c04_precedence", "c10_engine", "c05_optimizer", "c03_apply_options", "c08_wire"],
     labels=["C07.", "C05.key.", "C01.check", "C06.add_filter.", "C03.apply_options.", "C08.wire.roundtrip_fields", "C08.wire.ser_fields", "C08.wire.de_fields", "C04.check.important", "C04.check.matched", "C04.check.exception", "C04.new.importants", "C04.new.exceptions", "C04.new.tagged", "C04.new.csp"] + MASK,
     kani=[],
-    witness=["c07_tags.rs"],
+    witness=["c07_tags.rs", "c07_model.rs"],
     trusted=["R6: the filter/clone iterator chain in tags_with_set computes the stated sub-sequence",
              "enable_tags/disable_tags set algebra (iterator chains) not under contract",
              "String obeys the hash key model (vstd axiom)"],
